@@ -101,7 +101,7 @@ def run(tier):
     kinds = collections.Counter(); seen = set(); pe_found = 0; pe_probs = set()
     for p in paths:
         res = results[p]
-        for b in res['broken']: R.broke(b)
+        for b in res['broken']: R.broke_at(p, b)
         pe_found += res['pe'][1]; pe_probs |= set(res['pe'][0])
         for kind, disp, site, probs in res['items']:
             if (kind, disp) in seen: continue
@@ -116,7 +116,7 @@ def run(tier):
     ep = core.extract(list(units.EQUIV))
     er = repo_units.map_units('sa.checks.c09', 'analyse_unit', ep, extra=(8, ['must', 'if_must', 'if_must_else', 'opt_must', 'star_must', 'list_must']))
     for p in ep:
-        for b in er[p]['broken']: R.broke(b)
+        for b in er[p]['broken']: R.broke_at(p, b)
         for it in er[p]['items']:
             probs = [q for q in it['problems'] if q[0] == 'E-result' and 'global failure' in q[1]]
             kinds['equiv-raise'] += 1
